@@ -129,7 +129,7 @@ func occSpecRel(name string, c ContainerKind, nkeys, nfill int, aboveThreshold b
 		}
 		nother := 0
 		if aboveThreshold {
-			thr := int(float64(32*c.slots()) * 0.75)
+			thr := policyOf(c).grow
 			for j := 0; m.Size() <= thr; j++ {
 				m.Store(fillSpread+j, 2000+j)
 				nother++
